@@ -212,9 +212,25 @@ func sweepStats(b *strings.Builder, spec string, m memory.Memory) {
 		start = 16
 		fmt.Fprintf(b, " c0:%d c1:%d", m.GetStatistics(0), m.GetStatistics(1))
 	}
-	for l := start; l < total; l++ {
-		if v := lm.GetStatisticsLarge(l); v != 0 {
-			fmt.Fprintf(b, " %x:%d", l, v)
+	if protect(func() {
+		for l := start; l < total; l++ {
+			if v := lm.GetStatisticsLarge(l); v != 0 {
+				fmt.Fprintf(b, " %x:%d", l, v)
+			}
+		}
+	}) {
+		b.WriteString(" !fault")
+	}
+	if isF256(spec) {
+		// the LUT counters are only reachable through the edit window: open it for each LUT in turn
+		// (the stores to $0000 count on MMU_MEM_CTRL, whose counter was reported above)
+		for n := 0; n < 4; n++ {
+			m.Store(0, uint8(0x80|n<<4))
+			for i := 0; i < 8; i++ {
+				if v := m.GetStatistics(uint16(8 + i)); v != 0 {
+					fmt.Fprintf(b, " t%d:%d", n*8+i, v)
+				}
+			}
 		}
 	}
 }
@@ -230,10 +246,14 @@ func imageOf(spec string, m memory.Memory) string {
 		start = 16
 		fmt.Fprintf(&b, " c0:%02x c1:%02x", m.Load(0), m.Load(1))
 	}
-	for l := start; l < total; l++ {
-		if v := lm.LoadLarge(l); v != 0 {
-			fmt.Fprintf(&b, " %x:%02x", l, v)
+	if protect(func() {
+		for l := start; l < total; l++ {
+			if v := lm.LoadLarge(l); v != 0 {
+				fmt.Fprintf(&b, " %x:%02x", l, v)
+			}
 		}
+	}) {
+		b.WriteString(" !fault")
 	}
 	return b.String()
 }
